@@ -120,7 +120,7 @@ type compiled struct {
 
 var (
 	rePosPrefix = regexp.MustCompile(`^[^:\s]+:\d+:\d+: `)
-	reExtName   = regexp.MustCompile(`\[[A-Za-z0-9_.]+\]`)
+	reExtName   = regexp.MustCompile(`\[[A-Za-z0-9_.]+\](\.[A-Za-z0-9_]+)*`)
 )
 
 func compileStable(srcs map[string]string, name string) (c *compiled, err error) {
@@ -412,7 +412,7 @@ func TestC31(t *testing.T) {
 					}
 					if diff != "" {
 						tc := tokenClasses()
-						sig := p.Name + ": descriptor differs at " + reExtName.ReplaceAllString(diff, "[ext]")
+						sig := p.Name + ": descriptor differs at " + reExtName.ReplaceAllString(diff, "[ext]…")
 						if swallowed(tc) || commentSwallows(text, f1) {
 							sig = p.Name + ": descriptor changes because a // comment swallows what follows it on the line"
 						}
